@@ -1,8 +1,136 @@
 import Driver.Proto
-/-! driver handlers for property C17 (ops `model.*`, `spec.*`, `trig.*`) -/
-namespace Verif.Driver.C17
-open Verif Verif.Driver
+import Verif.Base.Pack
+import Verif.Spec.HtmlRefs
+import Verif.Spec.HtmlTraits
+import Verif.Spec.CssUnits
+import Verif.Spec.TableChecks
+import Verif.Spec.TraitChecks
+import Verif.Gen.EntitiesHtml
+import Verif.Gen.TextRevHtml
+import Verif.Gen.EntitiesXml
+import Verif.Gen.TextRevXml
+import Verif.Gen.TagTraits
+import Verif.Gen.AttrTraits
+import Verif.Gen.JsMimetypes
+import Verif.Gen.ShortenColorHex
+import Verif.Gen.ShortenColorName
+import Verif.Gen.OptionalZeroDimension
+import Verif.Gen.SvgColorAttrs
+import Verif.Gen.HashNames
+import Verif.Gen.Html5Entities
+import Verif.Gen.CssColors
+/-!
+driver handlers for property C17
 
-def handlers : List (String × Handler) := []
+* `dump.<Table>`            — the regenerated table as the kernel sees it (flat list: key, value, key, value, …),
+                              compared by the harness with the live exported Go maps (translator cross-check)
+* `spec.decodeRefs ctx s`   — `Spec.HtmlRefs.decodeRefs` on UTF-8 input, UTF-8 output (ctx 0 = text, 1 = attribute)
+* `spec.decodeXml s`        — `[ok, text]`
+* `spec.color s`            — `r g b` or `none`
+* `spec.class.<list> name`  — membership in a hand-written list of `Spec/HtmlTraits`, `Spec/CssUnits`
+* `bad.<check>`             — keys of the rows that fail the checker of `Spec/TableChecks` (search mode)
+-/
+namespace Verif.Driver.C17
+open Verif Verif.Driver Verif.Gen Verif.Spec.HtmlRefs Verif.Spec.HtmlTraits Verif.Spec.CssUnits
+open Verif.Spec.TableChecks
+
+def pkBytes (n : Nat) : Bytes := (unpack n).map UInt8.ofNat
+
+def natsBytes (l : List Nat) : Bytes := strBytes (" ".intercalate (l.map toString))
+
+def pairs (t : List (Nat × Nat)) : Bytes :=
+  listReply (t.foldr (fun (a, b) acc => pkBytes a :: pkBytes b :: acc) [])
+
+def names (t : List Nat) : Bytes := listReply (t.map pkBytes)
+
+/-- last component of the derived `Repr` of an enumeration value -/
+def ctorName {α : Type} [Repr α] (x : α) : String :=
+  (((toString (repr x)).splitOn ".").getLast?).getD ""
+
+def traitRows {α : Type} [Repr α] (t : List (Nat × List α)) : Bytes :=
+  listReply (t.foldr (fun (a, ts) acc => pkBytes a :: strBytes (" ".intercalate (ts.map ctorName)) :: acc) [])
+
+def utf8Chars (b : Bytes) : Except String (List Char) :=
+  match String.fromUTF8? (ByteArray.mk b.toArray) with
+  | some s => .ok s.toList
+  | none => .error "invalid utf-8"
+
+def charsUtf8 (l : List Char) : Bytes := (String.ofList l).toUTF8.toList
+
+def dumps : List (String × Handler) := [
+  ("dump.EntitiesHtml", fun _ => .ok (pairs EntitiesHtml.table)),
+  ("dump.TextRevHtml", fun _ => .ok (pairs TextRevHtml.table)),
+  ("dump.EntitiesXml", fun _ => .ok (pairs EntitiesXml.table)),
+  ("dump.TextRevXml", fun _ => .ok (pairs TextRevXml.table)),
+  ("dump.ShortenColorHex", fun _ => .ok (pairs ShortenColorHex.table)),
+  ("dump.ShortenColorName", fun _ => .ok (pairs ShortenColorName.table)),
+  ("dump.JsMimetypes", fun _ => .ok (names JsMimetypes.table)),
+  ("dump.OptionalZeroDimension", fun _ => .ok (names OptionalZeroDimension.table)),
+  ("dump.SvgColorAttrs", fun _ => .ok (names SvgColorAttrs.table)),
+  ("dump.TagTraits", fun _ => .ok (traitRows TagTraits.table)),
+  ("dump.AttrTraits", fun _ => .ok (traitRows AttrTraits.table)),
+  ("dump.HashNames.html", fun _ => .ok (pairs HashNames.html)),
+  ("dump.HashNames.css", fun _ => .ok (pairs HashNames.css)),
+  ("dump.HashNames.svg", fun _ => .ok (pairs HashNames.svg)),
+  ("dump.Html5Entities", fun _ => .ok (listReply
+      (Html5Entities.table.foldr (fun (a, cps) acc => pkBytes a :: natsBytes cps :: acc) []))),
+  ("dump.CssColors", fun _ => .ok (listReply
+      (CssColors.table.foldr (fun (a, r, g, b) acc => pkBytes a :: natsBytes [r, g, b] :: acc) [])))]
+
+def classes : List (String × List Nat) := [
+  ("booleanAttrs", booleanAttrs ++ booleanAttrsObsolete), ("urlAttrs", urlAttrs ++ urlAttrsObsolete),
+  ("rawJustified", rawTextElements ++ escapableRawTextElements ++ parserRawTextElements ++ foreignRoots),
+  ("wsInsignificant", blockLevel ++ tableParts ++ lineBreak ++ notRendered ++ selectParts),
+  ("jsMimeTypes", jsMimeTypes), ("svgColorAttrs", svgColorAttrs),
+  ("lengthUnits", lengthUnits), ("angleUnits", angleUnits)]
+
+def bads : List (String × Handler) := [
+  ("bad.entitiesHtml", fun _ => .ok (names ((EntitiesHtml.table.filter (!entityRowOk ·)).map (·.1)))),
+  ("bad.textRevHtml", fun _ => .ok (names ((TextRevHtml.table.filter (!textRevRowOk ·)).map (·.1)))),
+  ("bad.textRevHtmlCovers", fun _ => .ok (names ((EntitiesHtml.table.filter
+      (fun row => row.2 == pk! "<" && (lookupNat 60 TextRevHtml.table).isNone)).map (·.1)))),
+  ("bad.entitiesXml", fun _ => .ok (names ((EntitiesXml.table.filter (!xmlEntityRowOk ·)).map (·.1)))),
+  ("bad.textRevXml", fun _ => .ok (names ((TextRevXml.table.filter (!xmlTextRevRowOk ·)).map (·.1)))),
+  ("bad.colorHex", fun _ => .ok (names ((ShortenColorHex.table.filter (!colorHexRowOk ·)).map (·.1)))),
+  ("bad.colorName", fun _ => .ok (names ((ShortenColorName.table.filter (!colorNameRowOk ·)).map (·.1)))),
+  ("bad.boolAttrs", fun _ => .ok (names ((AttrTraits.table.filter (!boolAttrRowOk ·)).map (·.1)))),
+  ("bad.urlAttrs", fun _ => .ok (names ((AttrTraits.table.filter (!urlAttrRowOk ·)).map (·.1)))),
+  ("bad.rawTags", fun _ => .ok (names ((TagTraits.table.filter (!rawTagRowOk ·)).map (·.1)))),
+  ("bad.blockTags", fun _ => .ok (names ((TagTraits.table.filter (!blockTagRowOk ·)).map (·.1)))),
+  ("bad.jsMimetypes", fun _ => .ok (names (JsMimetypes.table.filter (!jsMimeTypes.contains ·)))),
+  ("bad.zeroUnits", fun _ => .ok (names (OptionalZeroDimension.table.filter (!isLengthOrAngleUnit ·)))),
+  ("bad.svgColorAttrs", fun _ => .ok (names (SvgColorAttrs.table.filter (!svgColorAttrs.contains ·)))),
+  ("bad.hashNames.html", fun _ => .ok (names ((HashNames.html.filter (!hashRowOk ·)).map (·.1)))),
+  ("bad.hashNames.css", fun _ => .ok (names ((HashNames.css.filter (!hashRowOk ·)).map (·.1)))),
+  ("bad.hashNames.svg", fun _ => .ok (names ((HashNames.svg.filter (!hashRowOk ·)).map (·.1))))]
+
+def specs : List (String × Handler) := [
+  ("spec.decodeRefs", fun args => do
+    let ctx ← argNat args 0
+    let s ← utf8Chars (← argBytes args 1)
+    .ok (charsUtf8 (decodeRefs (if ctx == 0 then .text else .attr) s))),
+  ("spec.decodeXml", fun args => do
+    let s ← utf8Chars (← argBytes args 0)
+    match decodeXml s with
+    | some t => .ok (listReply [boolBytes true, charsUtf8 t])
+    | none => .ok (listReply [boolBytes false, []])),
+  ("spec.color", fun args => do
+    let s ← argBytes args 0
+    match colorCps (s.map UInt8.toNat) with
+    | some (r, g, b) => .ok (natsBytes [r, g, b])
+    | none => .ok (strBytes "none")),
+  ("spec.class", fun args => do
+    let cls ← argBytes args 0
+    let name ← argBytes args 1
+    match classes.lookup (String.ofList (bytesToChars cls)) with
+    | some l => .ok (boolBytes (l.contains (pack (name.map UInt8.toNat))))
+    | none => .error "unknown class"),
+  ("spec.classList", fun args => do
+    let cls ← argBytes args 0
+    match classes.lookup (String.ofList (bytesToChars cls)) with
+    | some l => .ok (names l)
+    | none => .error "unknown class")]
+
+def handlers : List (String × Handler) := dumps ++ bads ++ specs
 
 end Verif.Driver.C17
